@@ -23,6 +23,8 @@ pub enum F
     A,
     B,
     N,
+    /// ordinary system whose only `Commands` is nested in a `ParamSet`
+    P,
 }
 
 #[derive(Debug, Clone, Copy, PartialEq, Eq, Hash, Serialize, Deserialize, PartialOrd, Ord)]
@@ -197,18 +199,23 @@ fn perform(world: &mut World, spec: &CallSpec) -> Result<Out, ()>
         Target::Syscall(F::A) => Ok(syscall(world, plan, sys_a)),
         Target::Syscall(F::B) => Ok(world.syscall(plan, sys_b)),
         Target::Syscall(F::N) => Ok(syscall(world, plan, sys_n)),
+        Target::Syscall(F::P) => Ok(syscall(world, plan, sys_p)),
         Target::Named(n, F::A) => Ok(named_syscall(world, n, plan, sys_a)),
         Target::Named(n, F::B) => Ok(named_syscall(world, n, plan, sys_b)),
         Target::Named(n, F::N) => Ok(named_syscall(world, n, plan, sys_n)),
+        Target::Named(n, F::P) => Ok(named_syscall(world, n, plan, sys_p)),
         Target::NamedDirect(n, F::A) => named_syscall_direct::<In<CallSpec>, Out>(world, name_of(sys_a, n), plan).map_err(|_| ()),
         Target::NamedDirect(n, F::B) => named_syscall_direct::<In<CallSpec>, Out>(world, name_of(sys_b, n), plan).map_err(|_| ()),
         Target::NamedDirect(n, F::N) => named_syscall_direct::<In<CallSpec>, Out>(world, name_of(sys_n, n), plan).map_err(|_| ()),
+        Target::NamedDirect(n, F::P) => named_syscall_direct::<In<CallSpec>, Out>(world, name_of(sys_p, n), plan).map_err(|_| ()),
         Target::SyscallV(F::A) => Ok(syscall_with_validation(world, plan, sys_a, validate)),
         Target::SyscallV(F::B) => Ok(world.syscall_with_validation(plan, sys_b, validate)),
         Target::SyscallV(F::N) => Ok(syscall_with_validation(world, plan, sys_n, validate)),
+        Target::SyscallV(F::P) => Ok(syscall_with_validation(world, plan, sys_p, validate)),
         Target::Once(F::A) => Ok(world.syscall_once(plan, sys_a)),
         Target::Once(F::B) => Ok(world.syscall_once(plan, sys_b)),
         Target::Once(F::N) => Ok(world.syscall_once(plan, sys_n)),
+        Target::Once(F::P) => Ok(world.syscall_once(plan, sys_p)),
         Target::Spawned(slot) =>
         {
             let id = ST.with(|s| { let s = s.borrow(); if s.slots.is_empty() { None } else { s.slots[slot as usize % s.slots.len()] } });
@@ -262,6 +269,22 @@ fn sys_n(In(plan): In<CallSpec>, mut c: Commands, mut local: Local<u32>, probe: 
         c.queue(move |w: &mut World| { let r = perform(w, &q); effect(Effect::QueuedResult(r)); });
     }
     Out{ f: F::N, x, count, nested: Vec::new(), changed }
+}
+
+/// Like `sys_n`, but its only `Commands` is nested in a `ParamSet` (deferred work hidden from `System::has_deferred`).
+fn sys_p(In(plan): In<CallSpec>, mut ps: ParamSet<(Commands, Query<Entity>)>, mut local: Local<u32>) -> Out
+{
+    *local += 1;
+    let count = *local;
+    let x = plan.x;
+    let _ = ps.p1().iter().count();
+    let mut c = ps.p0();
+    c.queue(move |_w: &mut World| effect(Effect::Marker(F::P, x, count)));
+    for q in plan.queued.iter().cloned()
+    {
+        c.queue(move |w: &mut World| { let r = perform(w, &q); effect(Effect::QueuedResult(r)); });
+    }
+    Out{ f: F::P, x, count, nested: Vec::new(), changed: None }
 }
 
 fn unit_sys(In(x): In<u32>, mut local: Local<u32>)
@@ -331,7 +354,7 @@ impl Model
             // a fresh system per call: count 1, nothing persists, never "running" under a key
             if depth > 0 { self.hit("C17:nested_or_command_issued"); }
             self.hit("C17:syscall_once");
-            let nested: Vec<Result<ExpOut, ()>> = if f == F::N { Vec::new() } else { spec.nested.iter().map(|n| self.call(n, depth + 1)).collect() };
+            let nested: Vec<Result<ExpOut, ()>> = if f == F::N || f == F::P { Vec::new() } else { spec.nested.iter().map(|n| self.call(n, depth + 1)).collect() };
             self.effects.push(ExpEffect::Marker(f, spec.x, Some(1)));
             for q in spec.queued.iter()
             {
@@ -380,7 +403,7 @@ impl Model
             Some(c)
         };
         self.running.push(key);
-        let nested: Vec<Result<ExpOut, ()>> = if f == F::N { Vec::new() } else { spec.nested.iter().map(|n| self.call(n, depth + 1)).collect() };
+        let nested: Vec<Result<ExpOut, ()>> = if f == F::N || f == F::P { Vec::new() } else { spec.nested.iter().map(|n| self.call(n, depth + 1)).collect() };
         // the body's commands: marker first, then the queued calls in order
         self.effects.push(ExpEffect::Marker(f, spec.x, count));
         for q in spec.queued.iter()
@@ -446,9 +469,11 @@ fn run_inner(case: &SysCase, out: &mut SysOutcome)
                     (F::A, 0) => register_named_system(&mut world, name_of(sys_a, *n), sys_a),
                     (F::B, 0) => register_named_system(&mut world, name_of(sys_b, *n), sys_b),
                     (F::N, 0) => register_named_system(&mut world, name_of(sys_n, *n), sys_n),
+                    (F::P, 0) => register_named_system(&mut world, name_of(sys_p, *n), sys_p),
                     (F::A, _) => register_named_system_from(&mut world, name_of(sys_a, *n), CallbackSystem::new(sys_a)),
                     (F::B, _) => register_named_system_from(&mut world, name_of(sys_b, *n), CallbackSystem::new(sys_b)),
                     (F::N, _) => register_named_system_from(&mut world, name_of(sys_n, *n), CallbackSystem::new(sys_n)),
+                    (F::P, _) => register_named_system_from(&mut world, name_of(sys_p, *n), CallbackSystem::new(sys_p)),
                 }
                 // a (re-)registered system starts with fresh state
                 model.counts.insert(Key::Named(*n, *f), 0);
@@ -463,12 +488,15 @@ fn run_inner(case: &SysCase, out: &mut SysOutcome)
                     (F::A, 0) => spawn_system(&mut world, sys_a),
                     (F::B, 0) => spawn_system(&mut world, sys_b),
                     (F::N, 0) => spawn_system(&mut world, sys_n),
+                    (F::P, 0) => spawn_system(&mut world, sys_p),
                     (F::A, 1) => spawn_system_from(&mut world, CallbackSystem::new(sys_a)),
                     (F::B, 1) => spawn_system_from(&mut world, CallbackSystem::new(sys_b)),
                     (F::N, 1) => spawn_system_from(&mut world, CallbackSystem::new(sys_n)),
+                    (F::P, 1) => spawn_system_from(&mut world, CallbackSystem::new(sys_p)),
                     (F::A, _) => { let id = world.commands().spawn_system_from(CallbackSystem::new(sys_a)); world.flush(); id }
                     (F::B, _) => { let id = world.commands().spawn_system(sys_b); world.flush(); id }
                     (F::N, _) => { let id = world.commands().spawn_system_from(CallbackSystem::new(sys_n)); world.flush(); id }
+                    (F::P, _) => { let id = world.commands().spawn_system_from(CallbackSystem::new(sys_p)); world.flush(); id }
                 };
                 ST.with(|s| s.borrow_mut().slots.push(Some(id)));
                 model.slots.push((*f, true));
@@ -507,6 +535,7 @@ fn run_inner(case: &SysCase, out: &mut SysOutcome)
                         F::A => revoke_of(sys_a, &mut m, *n, *by_name),
                         F::B => revoke_of(sys_b, &mut m, *n, *by_name),
                         F::N => revoke_of(sys_n, &mut m, *n, *by_name),
+                        F::P => revoke_of(sys_p, &mut m, *n, *by_name),
                     }
                 }
                 if model.named_exists.get(&(*n, *f)).copied().unwrap_or(false) { model.hit("C17:revoke_named"); }
@@ -521,6 +550,7 @@ fn run_inner(case: &SysCase, out: &mut SysOutcome)
                     F::A => spawn_rc_system(&mut world, sys_a),
                     F::B => spawn_rc_system(&mut world, sys_b),
                     F::N => spawn_rc_system(&mut world, sys_n),
+                    F::P => spawn_rc_system(&mut world, sys_p),
                 };
                 let id = SysId::new(sig.entity());
                 ST.with(|s| { let mut s = s.borrow_mut(); s.slots.push(Some(id)); let k = s.slots.len() - 1; s.rc.push((k, Some(sig))); });
@@ -551,6 +581,7 @@ fn run_inner(case: &SysCase, out: &mut SysOutcome)
                         F::A => world.commands().insert_system(id.entity(), sys_a),
                         F::B => world.commands().insert_system(id.entity(), sys_b),
                         F::N => world.commands().insert_system(id.entity(), sys_n),
+                        F::P => world.commands().insert_system(id.entity(), sys_p),
                     };
                     world.flush();
                     let alive = model.slots[k].1;
@@ -671,7 +702,7 @@ impl<'a> Dec<'a>
 {
     fn byte(&mut self) -> u8 { self.u.arbitrary::<u8>().unwrap_or(0) }
     fn below(&mut self, n: usize) -> usize { if n <= 1 { 0 } else { (self.byte() as usize * n) >> 8 } }
-    fn f(&mut self) -> F { match self.below(3) { 0 => F::A, 1 => F::B, _ => F::N } }
+    fn f(&mut self) -> F { match self.below(4) { 0 => F::A, 1 => F::B, 2 => F::N, _ => F::P } }
 
     fn target(&mut self) -> Target
     {
